@@ -1527,7 +1527,13 @@ def gen_c07_spec(rng: random.Random) -> Dict[str, Any]:
             beh["ret_exc"] = True  # the return value is an exception instance
         elif beh["out"] == "ok" and rng.random() < 0.1:
             beh["ret_model"] = rng.choice(["model", "dataclass"])  # ... a pydantic model / a dataclass instance
-        if task == "t_sync":
+        elif beh["out"] == "ok" and rng.random() < 0.1:
+            # the function has a return annotation and returns something else (that could be converted to it)
+            m["task"], beh["ret_raw"] = rng.choice([("t_ret_int", "7"), ("t_ret_int", 3.0), ("t_ret_list", {"__tuple__": [1, 2]}),
+                                                    ("t_ret_dict", {"n": "3"}), ("t_ret_int", True)])
+            if m["task"] == "t_ret_list":
+                beh["dur"] = []
+        if task == "t_sync" or m["task"] == "t_ret_list":
             pass
         elif rng.random() < 0.45:
             d = O._dur_total(beh) or 0.0
@@ -1544,7 +1550,8 @@ def gen_c07_spec(rng: random.Random) -> Dict[str, Any]:
         if rng.random() < 0.15:
             m["partial_types"] = True
         msgs.append(m)
-    spec: Dict[str, Any] = {"cfg": {"A": rng.choice([1, 2, 4, None]), "P": rng.choice([0, 1])}, "msgs": msgs,
+    spec: Dict[str, Any] = {"cfg": {"A": rng.choice([1, 2, 4, None]), "P": rng.choice([0, 1]),
+                                    "ack": rng.choice(["when_saved", "when_saved", "when_executed", "when_received"])}, "msgs": msgs,
                             "end_stream": True, "backend": {"lat": rng.choice([0, "y", 0.05]), "fail": fail}}
     if rng.random() < 0.2 and not any("never" in m_["beh"].get("dur", []) for m_ in msgs):
         # the worker is configured with a (short) wait_tasks_timeout: it is about shutting down, not about tasks
@@ -1799,6 +1806,8 @@ def gen_c12_spec(rng: random.Random, depth: int) -> Dict[str, Any]:
         beh = gen_beh(rng, ["ok", "raise", "raise", "noresult"], [[], ["y"], [0.05], [0.2]])
         if beh["out"].startswith("raise:") and rng.random() < 0.15:
             beh["out"] = "raise:LockedError"  # an exception object that cannot be pickled (it holds a lock)
+        elif beh["out"].startswith("raise:") and rng.random() < 0.15:
+            beh["out"] = "raise:Chained"  # raised with an explicit cause (raise X from Y)
         m: Dict[str, Any] = {"at": round(t, 6), "task": "tdep", "beh": beh, "ackable": rng.random() < 0.7,
                              "ack_async": rng.random() < 0.5}
         if fn == "sync":
